@@ -43,6 +43,9 @@ def configs(tier):
             if heavy and tier != "quick":
                 # a second fixed shape in the thorough tier
                 out.append({"entry": e, "callback": cb, "classes": ["UE", "DE", "UE"], "graph": "fixed"})
+    # faults that are not Exception subclasses (KeyboardInterrupt-like), on one fixed graph
+    for e, cb in (("neighbors", "ff"), ("bft", "via"), ("basic_render", "rfunc"), ("plantuml", "urf"), ("pyvis", "rvfunc"), ("pyvis", "refunc")):
+        out.append({"entry": e, "callback": cb, "classes": ["DE", "UE", "DE"], "graph": "fixed", "fault_class": "HarnessInterrupt"})
     # a link that lost one end through the one-sided API (b.remove_from_link(e)): queries may raise, nothing may change
     for e in ("neighbors", "find_links", "bft", "searches", "basic_render", "plantuml", "pyvis"):
         out.append({"entry": e, "callback": "none", "classes": ["DE", "UE"], "graph": "halfopen"})
@@ -200,7 +203,7 @@ def scenario(B, p):
         if cbk == "sort":
             ret = "int"
         # the fault is an Exception subclass or a BaseException that is not one (KeyboardInterrupt-like)
-        fcls = ["HarnessFault", "HarnessInterrupt"][B.choice("fault_class", 2)]
+        fcls = p.get("fault_class", "HarnessFault")
         cb_fault = B.uf("cb", doms, ret, fault=True, fault_cls=fcls)
         cb_ok = B.uf_twin(cb_fault)
         if ret == "str":
